@@ -345,6 +345,7 @@ class WeeklyCalendar(IWorkCalendar):
             units_per_day: Union[int, float, Dict[int, float]] = None,
     ):
         WeeklyCalendar.__check_working_days(days)
+        WeeklyCalendar.__check_start_end(start, end)
 
         if units_per_day is None:
             raise RuntimeError("units_per_day not specified")
@@ -361,6 +362,7 @@ class WeeklyCalendar(IWorkCalendar):
 
         else:
             if type(units_per_day) is dict:
+                WeeklyCalendar.__check_working_days(list(units_per_day.keys()))
                 self.__day_hours = {}
                 for i in range(0, 7):
                     val = units_per_day[i] if i in units_per_day else 0
